@@ -196,15 +196,31 @@ def locOf (m : Sexp) : CfgLift.Loc :=
   | .list (_ :: a :: b :: _) => ((nat? a).getD 0, (nat? b).getD 0)
   | _ => (0, 0)
 
+/-- the identity of a statement in traces and CFG dumps: its source range, refined by its kind and the
+    declared / assigned name (the statements the parser produces for `var a = e1, b = e2;` all carry
+    the range of the whole declaration) -/
+def nameTag (s : String) : Nat := (s.toList.foldl (fun a c => a + c.toNat) 0) % 1000
+
+def stmtKey (m : Sexp) (kind : Nat) (name : String) : CfgLift.Loc :=
+  let l := locOf m
+  (l.1, l.2 * 10000 + kind * 1000 + (if kind = 0 then 0 else nameTag name))
+
+def vBase (v : Sexp) : String :=
+  match v with
+  | .list (.atom "v" :: .atom n :: _) => n
+  | _ => ""
+
 open Sexp in
 partial def astSkel (s : Sexp) : CfgLift.Stmt :=
   match s with
   | .list (.atom "ite" :: m :: _ :: t :: e :: _) =>
-    (match e with | .atom _ => .ite (locOf m) (astSkel t) | e => .iteElse (locOf m) (astSkel t) (astSkel e))
-  | .list (.atom "while" :: m :: _ :: b :: _) => .while (locOf m) (astSkel b)
+    (match e with | .atom _ => .ite (stmtKey m 0 "") (astSkel t) | e => .iteElse (stmtKey m 0 "") (astSkel t) (astSkel e))
+  | .list (.atom "while" :: m :: _ :: b :: _) => .while (stmtKey m 0 "") (astSkel b)
   | .list (.atom "blk" :: _ :: .list cs :: _) => .block (CfgLift.Stmts.ofList (cs.map astSkel))
   | .list (.atom "init" :: _ :: _ :: .list cs :: _) => .init (CfgLift.Stmts.ofList (cs.map astSkel))
-  | .list (_ :: m :: _) => .simple (locOf m)
+  | .list (.atom "decl" :: m :: _ :: .atom name :: _) => .simple (stmtKey m 1 name)
+  | .list (.atom "sub" :: m :: .atom name :: _) => .simple (stmtKey m 2 name)
+  | .list (_ :: m :: _) => .simple (stmtKey m 0 "")
   | _ => .simple (0, 0)
 
 /-- body of `(def kind name (args) argloc body)` -/
@@ -217,8 +233,10 @@ open Sexp in
 def irSkel (st : Sexp) : CfgLift.IStmt :=
   match st with
   | .list (.atom "st" :: .list (.atom "if" :: m :: _ :: t :: f :: _) :: _) =>
-    .branch (locOf m) ((nat? t).getD 0) (nat? f)
-  | .list (.atom "st" :: .list (_ :: m :: _) :: _) => .simple (locOf m)
+    .branch (stmtKey m 0 "") ((nat? t).getD 0) (nat? f)
+  | .list (.atom "st" :: .list (.atom "decl" :: m :: .list (v :: _) :: _) :: _) => .simple (stmtKey m 1 (vBase v))
+  | .list (.atom "st" :: .list (.atom "sub" :: m :: v :: _) :: _) => .simple (stmtKey m 2 (vBase v))
+  | .list (.atom "st" :: .list (_ :: m :: _) :: _) => .simple (stmtKey m 0 "")
   | _ => .simple (0, 0)
 
 open Sexp in
@@ -234,7 +252,7 @@ def cfgSkel (c : Sexp) : List CfgLift.Block :=
 /-- source ranges of the `return` statements of an AST dump -/
 partial def retLocs (s : Sexp) : List CfgLift.Loc :=
   match s with
-  | .list (.atom "ret" :: m :: _) => [locOf m]
+  | .list (.atom "ret" :: m :: _) => [stmtKey m 0 ""]
   | .list (.atom "ite" :: _ :: _ :: t :: e :: _) => retLocs t ++ retLocs e
   | .list (.atom "while" :: _ :: _ :: b :: _) => retLocs b
   | .list (.atom "blk" :: _ :: .list cs :: _) => cs.flatMap retLocs
